@@ -1,4 +1,4 @@
-import TRV.Proofs.Alloc
+import TRV.Proofs.CrossProto
 /-!
 # C11 — Concurrent traceroutes are isolated; identifier ranges never overlap
 
@@ -19,9 +19,11 @@ Layout of the argument:
 4. engines: outcome lists that differ only by `retry` entries give the same result
    (`c11_run_alone_eq`, `c11_run_alone_eq_serial`): the run on the shared wire returns what it
    returns alone.
-5. cross-protocol (finding F11): the quoted IP protocol is not looked at; a UDP run and a TCP run
-   with equal port numbers and aligned IP ids DO cross-match (`c11_f11_*` witnesses); impossible
-   when `FlowsDistinctUdpTcp` holds (`c11_isolation_udp4_tcp`).
+5. cross-protocol (finding F11, repaired): on the pinned tree the quoted IP protocol was not looked
+   at and a UDP run and a TCP run with equal port numbers and aligned IP ids cross-matched.  Since
+   the fix the matchers demand the quoted protocol, the genuineness predicates include it, and runs
+   of different protocols are isolated with NO hypothesis on their flows (`c11_cross_protocol_*`);
+   the former witnesses are kept as regression statements (`c11_f11_*_fixed`).
 -/
 namespace TRV.Props.C11
 open TRV TRV.Alloc TRV.Spec TRV.Drv TRV.Wire TRV.Engine TRV.Proofs
@@ -108,11 +110,41 @@ theorem c11_isolation_sack {A B : SackCfg} {sA sB : List Sent} {t t' : Nat} {a a
     (hd : FlowsDistinctSack A B) (hA : genuineSack A sA t a d p = true) :
     genuineSack B sB t' a' d' p = false := isolation_sack hd hA
 
-/-- Cross-protocol UDP vs TCP SYN: under `FlowsDistinctUdpTcp` a packet genuine for the TCP run is
-    not genuine for the UDP run.  (Without it: `c11_f11_*` below.) -/
+/-- Cross-protocol, IPv4, on raw bytes: a packet genuine for a run of one protocol is not genuine
+    for a run of another protocol, whatever addresses, ports, identifiers and sent probes the two
+    runs have (equal port numbers and aligned IP ids included — the F11 scenario).  ICMP vs UDP,
+    ICMP vs TCP SYN, ICMP vs SACK, UDP vs TCP SYN, UDP vs SACK; each statement is symmetric (it says
+    "not both").  TCP SYN vs SACK share protocol 6 and are separated by the OS port space
+    (`FlowsDistinct…` hypotheses as for two runs of one protocol). -/
+theorem c11_cross_protocol_genuine {I : IcmpCfg} {U : UdpCfg} {C : TcpCfg} {S : SackCfg}
+    {sI sU sC sS : List Sent} {p : Bytes} :
+    (∀ t a d t' a' d', genuineIcmp4 I sI t a d p = true → genuineUdp4 U sU t' a' d' p = false) ∧
+    (∀ t a d t' a' d', genuineIcmp4 I sI t a d p = true → genuineTcp C sC t' a' d' p = false) ∧
+    (∀ t a d t' a' d', genuineIcmp4 I sI t a d p = true → genuineSack S sS t' a' d' p = false) ∧
+    (∀ t a d t' a' d', genuineUdp4 U sU t a d p = true → genuineTcp C sC t' a' d' p = false) ∧
+    (∀ t a d t' a' d', genuineUdp4 U sU t a d p = true → genuineSack S sS t' a' d' p = false) := by
+  refine ⟨?_, ?_, ?_, ?_, ?_⟩ <;> intro t a d t' a' d' h
+  · cases h' : genuineUdp4 U sU t' a' d' p with
+    | false => rfl
+    | true => exact (icmp_udp_excl (sig_icmp4 h) (sig_udp4 h')).elim
+  · cases h' : genuineTcp C sC t' a' d' p with
+    | false => rfl
+    | true => exact (icmp_tcp_excl (sig_icmp4 h) (sig_tcp h')).elim
+  · cases h' : genuineSack S sS t' a' d' p with
+    | false => rfl
+    | true => exact (icmp_tcp_excl (sig_icmp4 h) (sig_sack h')).elim
+  · cases h' : genuineTcp C sC t' a' d' p with
+    | false => rfl
+    | true => exact (udp_tcp_excl (sig_udp4 h) (sig_tcp h')).elim
+  · cases h' : genuineSack S sS t' a' d' p with
+    | false => rfl
+    | true => exact (udp_tcp_excl (sig_udp4 h) (sig_sack h')).elim
+
+/-- UDP vs TCP SYN in the form used before the fix (then under `FlowsDistinctUdpTcp`): no
+    hypothesis is needed any more. -/
 theorem c11_isolation_udp4_tcp {U : UdpCfg} {C : TcpCfg} {sU sC : List Sent} {t t' : Nat} {a a' : Bytes} {d d' : Bool} {p : Bytes}
-    (hd : FlowsDistinctUdpTcp U C sU sC) (hC : genuineTcp C sC t a d p = true) :
-    genuineUdp4 U sU t' a' d' p = false := isolation_udp4_tcp hd hC
+    (hC : genuineTcp C sC t a d p = true) :
+    genuineUdp4 U sU t' a' d' p = false := isolation_udp4_tcp hC
 
 /-- Disjoint `AllocPacketID` blocks discharge the `IdsDisjoint` disjunct of `FlowsDistinctTcp` in
     the default (non-Paris) mode: two runs whose probes carry ids `base + ttl` from disjoint blocks
@@ -161,10 +193,35 @@ theorem c11_not_both_accepted_sack {sA sB : SackSt} {pkt : Bytes} {t : Nat} {a :
     sackRecv sB pkt ≠ .accept t' a' d' tm' := not_both_sack hd hv4 hA t' a' d' tm'
 
 theorem c11_not_both_accepted_udp4_tcp {sU : UdpSt} {sC : TcpSt} {pkt : Bytes} {t : Nat} {a : Bytes} {d : Bool} {tm : Nat}
-    (hd : FlowsDistinctUdpTcp sU.cfg sC.cfg sU.sent sC.sent) (hiU : UdpInv sU) (h4U : sU.cfg.target.length = 4)
+    (hiU : UdpInv sU) (h4U : sU.cfg.target.length = 4)
     (hv4 : ∃ b0, u8 (pkt.take bufSize) 0 = some b0 ∧ b0 / 16 = 4)
     (hC : tcpRecv sC pkt = .accept t a d tm) (t' : Nat) (a' : Bytes) (d' : Bool) (tm' : Nat) :
-    udpRecv sU pkt ≠ .accept t' a' d' tm' := not_both_udp4_tcp hd hiU h4U hv4 hC t' a' d' tm'
+    udpRecv sU pkt ≠ .accept t' a' d' tm' := not_both_udp4_tcp hiU h4U hv4 hC t' a' d' tm'
+
+/-- Matcher level, any mix of protocols on IPv4: one packet is accepted by the matchers of at most
+    one of an ICMP run, a UDP run and a TCP-SYN-or-SACK run, for ALL states of the runs (no
+    hypothesis on flows or identifiers). -/
+theorem c11_cross_protocol_matchers {sI : IcmpSt} {sU : UdpSt} {sC : TcpSt} {sS : SackSt} {pkt : Bytes}
+    (hiU : UdpInv sU) (h4U : sU.cfg.target.length = 4)
+    (hv4 : ∃ b0, u8 (pkt.take bufSize) 0 = some b0 ∧ b0 / 16 = 4)
+    (hv4' : ∃ b0, u8 pkt 0 = some b0 ∧ b0 / 16 = 4) :
+    let accI := ∃ t a d tm, icmpRecv sI pkt = .accept t a d tm
+    let accU := ∃ t a d tm, udpRecv sU pkt = .accept t a d tm
+    let accC := ∃ t a d tm, tcpRecv sC pkt = .accept t a d tm
+    let accS := ∃ t a d tm, sackRecv sS pkt = .accept t a d tm
+    ¬ (accI ∧ accU) ∧ ¬ (accI ∧ accC) ∧ ¬ (accI ∧ accS) ∧ ¬ (accU ∧ accC) ∧ ¬ (accU ∧ accS) := by
+  intro accI accU accC accS
+  have gI : accI → SigQuoted (pkt.take bufSize) 1 ∨ SigEcho (pkt.take bufSize) :=
+    fun ⟨_, _, _, _, h⟩ => sig_icmp4 (icmp4_sound h hv4').1
+  have gU : accU → SigQuoted (pkt.take bufSize) 17 :=
+    fun ⟨_, _, _, _, h⟩ => sig_udp4 (udp4_sound hiU h4U h hv4).1
+  have gC : accC → SigQuoted (pkt.take bufSize) 6 ∨ SigTcp (pkt.take bufSize) :=
+    fun ⟨_, _, _, _, h⟩ => sig_tcp (tcp_sound h hv4).1
+  have gS : accS → SigQuoted (pkt.take bufSize) 6 ∨ SigTcp (pkt.take bufSize) :=
+    fun ⟨_, _, _, _, h⟩ => sig_sack (sack_sound h hv4).1
+  exact ⟨fun ⟨a, b⟩ => icmp_udp_excl (gI a) (gU b), fun ⟨a, b⟩ => icmp_tcp_excl (gI a) (gC b),
+    fun ⟨a, b⟩ => icmp_tcp_excl (gI a) (gS b), fun ⟨a, b⟩ => udp_tcp_excl (gU a) (gC b),
+    fun ⟨a, b⟩ => udp_tcp_excl (gU a) (gS b)⟩
 
 /-- A reply accepted by run B is a `retry` (ignored packet: neither a hop, nor a fatal error, nor
     `NotSupported`) for a concurrent run A. -/
@@ -216,33 +273,32 @@ theorem c11_run_alone_eq_serial {min max : Nat} {shared alone : List (List ROut)
   unfold serialRun
   rw [← serialLoop_dropRetry min max shared, ← serialLoop_dropRetry min max alone, h]
 
-/-! ## 5. Cross-protocol quote (finding F11): concrete witness
+/-! ## 5. Cross-protocol quote (finding F11, repaired): the former witness as a regression statement
 
 Local host 10.0.0.1, target 10.0.0.9:443.  A strict UDP run and a strict TCP-SYN run both use local
 port number 40000 (UDP and TCP port spaces are separate, the OS may hand out the same number).  The
 TCP run's `AllocPacketID` base is 41820, so its TTL-3 SYN carries IP id 41823 = 41821 + 2, the id
 of the UDP run's TTL-2 datagram.  Router 10.9.9.3 (the TCP run's third hop) answers the SYN with a
-time-exceeded quoting it. -/
+time-exceeded quoting it.  On the pinned tree the UDP run accepted that packet as its hop 2. -/
 
-/-- F11, model level: ONE packet — the reply to the TCP run's TTL-3 probe — is accepted by the TCP
-    run (hop 3 = 10.9.9.3, correct) AND by the UDP run, as its hop 2 (wrong: the UDP run reports
-    the TCP run's third-hop router as its second hop). -/
-theorem c11_f11_cross_protocol_witness :
+/-- ONE packet — the reply to the TCP run's TTL-3 probe — is accepted by the TCP run (hop 3 =
+    10.9.9.3) and ignored by the UDP run. -/
+theorem c11_f11_witness_fixed :
     tcpRecv f11TcpSt.1 f11Pkt = .accept 3 f11Router false 6 ∧
-    udpRecv f11UdpSt f11Pkt = .accept 2 f11Router false 5 := by decide
+    udpRecv f11UdpSt f11Pkt = .retry := by decide
 
-/-- … and the packet is "genuine" for both by the raw-offset predicates, which (like the property
-    text's list of identifying fields) do not mention the quoted protocol: C01 cannot see F11. -/
-theorem c11_f11_genuine_for_both :
+/-- … and by the raw-offset predicates (which now include the quoted protocol) it is genuine for
+    the TCP run only. -/
+theorem c11_f11_genuine_only_for_own :
     genuineTcp f11TcpCfg f11TcpSt.1.sent 3 f11Router false f11Pkt = true ∧
-    genuineUdp4 f11UdpCfg f11UdpSt.sent 2 f11Router false f11Pkt = true := by decide
+    genuineUdp4 f11UdpCfg f11UdpSt.sent 2 f11Router false f11Pkt = false := by decide
 
-/-- The reverse direction needs, in addition, the TCP run's constant 32-bit sequence number to equal
-    the UDP header's length and checksum words (bytes 4..7 of the quoted transport header): a TCP
-    run with base 41821 and that sequence number accepts the reply to the UDP run's TTL-2 probe. -/
-theorem c11_f11_reverse_witness :
+/-- The reverse direction (a TCP run whose constant sequence number equals the UDP header's length
+    and checksum words, base 41821): the reply to the UDP run's TTL-2 probe is accepted by the UDP
+    run and ignored by that TCP run. -/
+theorem c11_f11_reverse_fixed :
     udpRecv f11UdpSt (f11TE f11Router f11Local f11UdpProbe) = .accept 2 f11Router false 5 ∧
-    tcpRecv f11TcpSt' (f11TE f11Router f11Local f11UdpProbe) = .accept 2 f11Router false 6 := by decide +kernel
+    tcpRecv f11TcpSt' (f11TE f11Router f11Local f11UdpProbe) = .retry := by decide +kernel
 
 /-! ## Non-vacuity -/
 
@@ -278,7 +334,7 @@ example : (racyRun 7#32 [.load 0, .load 1, .store 0, .store 1]).out = [8#16, 8#1
     genuine for the TCP run, and a second TCP run with another local port rejects it -/
 example : genuineTcp { f11TcpCfg with lport := 40001 } f11TcpSt.1.sent 3 f11Router false f11Pkt = false :=
   c11_isolation_tcp (A := f11TcpCfg) (sA := f11TcpSt.1.sent)
-    (Or.inr ⟨Or.inr (by decide), Or.inl ⟨rfl, rfl⟩⟩) c11_f11_genuine_for_both.1
+    (Or.inr ⟨Or.inr (by decide), Or.inl ⟨rfl, rfl⟩⟩) c11_f11_genuine_only_for_own.1
 
 example : dropRetry [.retry, .accept ⟨1, [10,0,0,1], 5, false⟩, .retry, .retry] = dropRetry [.accept ⟨1, [10,0,0,1], 5, false⟩] := by
   rfl
@@ -294,6 +350,8 @@ example : dropRetry [.retry, .accept ⟨1, [10,0,0,1], 5, false⟩, .retry, .ret
 #print axioms c11_isolation_udp4
 #print axioms c11_isolation_tcp
 #print axioms c11_isolation_sack
+#print axioms c11_cross_protocol_genuine
+#print axioms c11_cross_protocol_matchers
 #print axioms c11_isolation_udp4_tcp
 #print axioms c11_blocks_give_idsDisjoint
 #print axioms c11_flowsDistinctSackB_iff
@@ -309,7 +367,7 @@ example : dropRetry [.retry, .accept ⟨1, [10,0,0,1], 5, false⟩, .retry, .ret
 #print axioms c11_run_alone_eq
 #print axioms c11_run_alone_eq_expected
 #print axioms c11_run_alone_eq_serial
-#print axioms c11_f11_cross_protocol_witness
-#print axioms c11_f11_genuine_for_both
-#print axioms c11_f11_reverse_witness
+#print axioms c11_f11_witness_fixed
+#print axioms c11_f11_genuine_only_for_own
+#print axioms c11_f11_reverse_fixed
 end TRV.Props.C11
